@@ -3,18 +3,18 @@ PROPS["C01"] = dict(
     props_file="Properties/C01.v",
     harnesses=[dict(cmd="verify", mod="root", model="Model.Verify", race=150, quick=360, thorough=8000, shard=75,
                     require=["op.vtoc", "op.skip", "op.lverify", "op.lverify.repeated", "op.lskip", "op.pf", "op.cache.real",
-                             "op.cache.stepwise", "op.pfstart.add", "op.pfstart.write", "op.pfstart.commit", "op.pfstart.abort", "op.pfresume", "result.pfresume.aborted", "cache.mem", "cache.dir", "op.cachewith.same", "op.cachewith.clean", "op.cachewith.other", "result.cachewith.refused", "op.switch.applied", "op.evict.hit", "start.clean", "op.pass.batch", "op.pass.sequential", "op.pass.verified", "op.pass.unverified", "result.pass.ok", "result.pass.err", "result.pass.nofetch", "op.read.verified", "op.read.unverified", "op.probe",
+                             "op.cache.stepwise", "op.pfstart.add", "op.pfstart.write", "op.pfstart.commit", "op.pfstart.abort", "op.pfresume", "result.pfresume.aborted", "cache.mem", "cache.dir", "op.rdstart.add", "op.rdstart.write", "op.rdstart.commit", "op.rdstart.aligned", "op.rdstart.unaligned", "op.rdresume", "op.cachewith.same", "op.cachewith.clean", "op.cachewith.other", "result.cachewith.refused", "op.switch.applied", "op.evict.hit", "start.clean", "op.pass.batch", "op.pass.sequential", "op.pass.verified", "op.pass.unverified", "result.pass.ok", "result.pass.err", "result.pass.nofetch", "op.read.verified", "op.read.unverified", "op.probe",
                              "cor.none", "cor.flip", "cor.zero", "cor.replace", "cor.swap", "cor.tocdigest", "cor.tocreser", "cor.tocnodigest", "cor.toctrail", "comp.gzip", "comp.zstd", "minchunk",
                              "fetch.pre", "fetch.err",
                              "result.VerifyTOC.ok", "result.VerifyTOC.err", "result.layer.Verify.ok", "result.layer.Verify.err",
                              "result.read.ok", "result.read.err", "result.read.allcached", "result.pf.err", "result.probe.hit"]),
                dict(cmd="verifydb", mod="cmdmod", model="Model.Verify", quick=220, thorough=3000, shard=75,
-                    require=["op.vtoc", "op.lverify", "op.pf", "op.cache.real", "op.cachewith.other", "op.switch.applied", "op.evict.hit", "op.pfstart.write", "op.pass.batch", "op.pass.sequential", "op.read.verified", "cor.replace", "cor.toctrail", "fetch.pre", "result.read.err", "result.pass.err", "result.VerifyTOC.err"])],
+                    require=["op.vtoc", "op.lverify", "op.pf", "op.cache.real", "op.rdstart.unaligned", "op.rdresume", "op.cachewith.other", "op.switch.applied", "op.evict.hit", "op.pfstart.write", "op.pass.batch", "op.pass.sequential", "op.read.verified", "cor.replace", "cor.toctrail", "fetch.pre", "result.read.err", "result.pass.err", "result.VerifyTOC.err"])],
     rule="eStargz blobs built by estargz.Build (gzip / zstd:chunked, chunk size 4..32, min-chunk-size 0/20/40/100, 1-3 files) then altered "
          "(bit flip / zeroed tail of a member, member replaced by a validly compressed different payload of the same size, two members swapped, "
          "TOC re-serialised / chunk digest rewritten to match a replaced chunk / digests removed / other field changed), opened through "
          "the memory metadata store (harness verify) and the db/bbolt metadata store (harness verifydb) + fs/reader (+ fs/layer layer object) with a memory or directory chunk cache; random histories of VerifyTOC(D|actual|other) / SkipVerify / "
-         "layer.Verify / layer.SkipVerify / readAndCache of one chunk / Cache() / OpenFile.ReadAt / OpenFile.GetPassthroughFd (directory cache in direct mode; merge buffer below, equal to, not a multiple of and above the chunk size, 1-3 workers: both merge code paths) / Cache(WithReader(sr')) with sr' serving the same blob, the unaltered build or another self-consistent eStargz (= layer.backgroundFetch / metadata Clone) / the registry switching between the unaltered and the altered blob (Refresh, mirror change) / eviction of a chunk from the memory cache / cache probe / a prefetch goroutine stopped at any interaction with its "
+         "layer.Verify / layer.SkipVerify / readAndCache of one chunk / Cache() / OpenFile.ReadAt / OpenFile.GetPassthroughFd (directory cache in direct mode; merge buffer below, equal to, not a multiple of and above the chunk size, 1-3 workers: both merge code paths) / Cache(WithReader(sr')) with sr' serving the same blob, the unaltered build or another self-consistent eStargz (= layer.backgroundFetch / metadata Clone) / the registry switching between the unaltered and the altered blob (Refresh, mirror change) / eviction of a chunk from the memory cache / an on-demand reader (aligned or unaligned range of one chunk) stopped inside cacheData (before cache.Add, at the first Write, before Commit) while other readers run to completion, then resumed / cache probe / a prefetch goroutine stopped at any interaction with its "
          "cache writer (before Add, at the first Write, before Commit, before Abort) while VerifyTOC / SkipVerify / reads run, resumed later (fixed corpus: every stop "
          "point x genuine/altered chunk x VerifyTOC(D)/VerifyTOC(D'), plus random ones), ending with a re-read of every file "
          "through the warm cache; non-trivial = a read in verified mode or a failed operation; distinct = distinct (TOC, history, fetched bytes, outputs)",
